@@ -1,7 +1,7 @@
 # Configuration of the C17 check (read by props_meta.py / gen_manifest.py / check)
 META = dict(
     harness=['C17'],
-    fuzz=[dict(name='fz_ref', quick_runs=150000, max_len=192, quick_procs=2, thorough_procs=8)],
+    fuzz=[dict(name='fz_ref', quick_runs=80000, max_len=192, quick_procs=2, thorough_procs=8)],
     engines='rapidcheck + bounded exhaustive enumeration + libFuzzer',
     rule='Generated: (i) exhaustively every text of <=5 symbols (thorough: <=6) over {"@{","@","{","}","|","X1","nomn","-1","a", a 3-byte code point} '
          'and 31 fixed texts (the witnesses of the four repaired findings, the strings of the upstream unit tests); (ii) rapidcheck texts of 1-8 segments: plain pieces '
